@@ -278,7 +278,7 @@ def run(tier: str) -> Run:
     r3.check(kind == 'return' and res == 2, 'pulse frequency given in kHz', loc(sfi), {'outcome': (kind, res)}, key='ratio:unit')
 
     # ---- R4: the openings reported are one per slit and turn, turns -1 .. n-1, paired consistently ---------------
-    r4 = run.rule('R4', 'open/close times: one pair per slit and turn for turns -1 .. n-1 (n = max(|f|/f_pulse, 1)), paired slit by slit', 8)
+    r4 = run.rule('R4', 'open/close times: every listed pair is an opening of one slit (open before close, paired slit by slit), none twice, none missing inside the span listed, which covers a pulse', 8)
     ofi, cfi_ = repo.func(MOD, 'DiskChopper.time_offset_open'), repo.func(MOD, 'DiskChopper.time_offset_close')
     for sign in (1, -1):
         for q in (F(1, 2), F(1), F(2), F(3)):
@@ -294,39 +294,51 @@ def run(tier: str) -> Run:
             if k1 != 'return' or k2 != 'return' or items_of(to) is None or items_of(tc) is None:
                 r4.fail(inst, loc(ofi), {'outcome': (k1, k2)}, key='pairs')
                 continue
-            n = max(int(q), 1)
             two_pi = 2 * Rat.sym('pi', positive=True)
             om = two_pi * S('frequency')
             cw = sign < 0
-            want = []
-            for m in range(-1, n):
-                for k in range(len(b)):
-                    bo, en = S(f'b{k}'), S(f'e{k}')
-                    th_open, th_close = (bo, en) if cw else (en, bo)
-                    rep = two_pi * m
-                    def dt(theta, cw=cw, rep=rep):
-                        ang = S('beam_position') + S('phase') - (theta + rep if cw else theta - rep)
-                        if not cw:
-                            ang = ang + two_pi
-                        return ang / om
-                    want.append((dt(th_open), dt(th_close)))
-            got = [(x.term, y.term) for x, y in zip(items_of(to), items_of(tc), strict=False)]
-            ok = len(items_of(to)) == len(items_of(tc)) == len(want) and all(isinstance(x, Rat) and isinstance(y, Rat) for x, y in got)
-            missing = None
-            if ok:
-                left = list(got)
-                for wo, wc in want:
-                    hit = next((i for i, (x, y) in enumerate(left) if x.eq(wo) and y.eq(wc)), None)
-                    if hit is None:
-                        ok, missing = False, (T.show(wo), T.show(wc))
-                        break
-                    left.pop(hit)
+            # the openings of the disk from the convention of R1: slit k is over the beam from dt(open edge) to dt(close edge),
+            # and again every rotation period; which turns are listed is the library's choice
             val = wm.val
-            order_ok = all(T.evaluate(x, val) < T.evaluate(y, val) for x, y in got) if ok else None
-            r4.check(ok and order_ok, inst, loc(ofi), {'pairs_reported': len(got), 'pairs_expected': len(want), 'first_missing_pair': missing,
-                                                        'open_before_close_at_witness': order_ok}, key='pairs')
+            t_rot = 1 / (F(14) * q)
+            base = []
+            for k in range(len(b)):
+                bo, en = S(f'b{k}'), S(f'e{k}')
+                th_open, th_close = (bo, en) if cw else (en, bo)
 
-    # ---- R5: expansion over source pulses ----------------------------------------------------------------------
+                def dt(theta, cw=cw):
+                    ang = S('beam_position') + S('phase') - theta
+                    if not cw:
+                        ang = ang + two_pi
+                    return ang / om
+                base.append((T.evaluate(dt(th_open), val), T.evaluate(dt(th_close), val)))
+            got = [(wm.value(x), wm.value(y)) for x, y in zip(items_of(to), items_of(tc), strict=False)]
+            probs = []
+            if len(items_of(to)) != len(items_of(tc)) or any(x is None or y is None for x, y in got) or not got:
+                probs.append('time_offset_open / time_offset_close are not arrays of equal length with known values')
+            else:
+                for o_, c_ in got:
+                    if not any(((o_ - bo_) / t_rot).denominator == 1 and c_ - o_ == bc_ - bo_ for bo_, bc_ in base):
+                        probs.append(f'({float(o_):.6g} s, {float(c_):.6g} s) is not an opening of a slit (rotation period {float(t_rot):.6g} s)')
+                        break
+                    if not o_ < c_:
+                        probs.append(f'open {float(o_):.6g} s is not before close {float(c_):.6g} s')
+                        break
+                if len(set(got)) != len(got):
+                    probs.append('an opening is listed twice')
+                lo_, hi_ = min(o_ for o_, _ in got), max(c_ for _, c_ in got)
+                for bo_, bc_ in base:
+                    k_ = -(-(lo_ - bo_) // t_rot)
+                    while bo_ + k_ * t_rot + (bc_ - bo_) <= hi_:
+                        if (bo_ + k_ * t_rot, bc_ + k_ * t_rot) not in set(got):
+                            probs.append(f'the opening at {float(bo_ + k_ * t_rot):.6g} s lies inside the covered span and is not listed')
+                            break
+                        k_ += 1
+                # the span listed covers at least one source pulse (or one rotation of a slower chopper)
+                if hi_ - lo_ < min(F(1, 14), t_rot) - max(bc_ - bo_ for bo_, bc_ in base):
+                    probs.append(f'the listed openings span {float(hi_ - lo_):.6g} s, less than a pulse period')
+            r4.check(not probs, inst, loc(ofi), {'pairs_reported': len(got), 'problems': probs[:3]}, key='pairs')
+
     # ---- R6: asking twice gives the same answer --------------------------------------------------------------
     r6 = run.rule('R6', 'a chopper reports the same openings on a second request (slit edges in deg and in rad: the unit conversion '
                         'inside is then a no-op and may hand out the stored edges themselves)', 2)
